@@ -23,8 +23,8 @@ import vlib
 from vlib import proof_coverage
 
 LEVEL = "proof"
-N_QUICK = {"mixed": 30, "straight": 20}
-N_THOROUGH = {"mixed": 200, "straight": 100}
+N_QUICK = {"mixed": 30, "straight": 16, "effects": 24}
+N_THOROUGH = {"mixed": 200, "straight": 80, "effects": 160}
 TRACE_QUICK, TRACE_THOROUGH = 40, 200
 MAX_REPORTS = 3
 C03 = vlib.VERIF / "props" / "C03"
@@ -302,11 +302,16 @@ def run(ctx):
     recs = compile_programs(ctx, progs)
     stat = Counter()
     reports = Counter()
+    suppressed = Counter()
 
     def report(kind_key, key, kind, name, detail, found=True):
-        if reports[kind_key] < MAX_REPORTS or ctx.is_known(key):
+        if ctx.is_known(key):                       # known findings never use up the report budget
+            ctx.report(key, kind, name, detail, found)
+        elif reports[kind_key] < MAX_REPORTS:
             reports[kind_key] += 1
             ctx.report(key, kind, name, detail, found)
+        else:
+            suppressed[kind_key] += 1
 
     # ---- part 3: translator validation + failing-input search for the classification
     if gen["effect_names"] != gen["runtime_list"]:
@@ -341,7 +346,7 @@ def run(ctx):
     for p, rec in zip(progs, recs):
         if not rec["ok"]:
             stat["rejected:" + rec["error"].split(":")[0]] += 1
-            if p["profile"] == "straight" or p.get("origin"):
+            if p["profile"] in ("straight", "effects") or p.get("origin"):
                 stat["rejected-detail:" + rec["error"][:80]] += 1
             continue
         segs, err = segs_of(rec)
@@ -357,6 +362,7 @@ def run(ctx):
             ctx.notes.append(f"model evaluation failed: {str(e)[-800:]}")
             report("model", "model-eval", "correspondence", "ModelRun.run_report could not be evaluated", {"error": str(e)[-1500:]}, False)
     n_regions = n_eff_regions = 0
+    n_effects_compared = [0]
     chain_lengths = Counter()
     samples = []
     for (p, rec, segs), res in zip(work, results):
@@ -407,7 +413,7 @@ def run(ctx):
             report("concl", "theorem-instance:" + key, "proof-broken", "order_edges_total evaluated on the model run of a real log is false",
                    {"program": key}, False)
         # source order for straight-line programs
-        if p["profile"] == "straight":
+        if p["profile"] in ("straight", "effects"):
             try:
                 want = gen_prog.expected_effects(p["src"])
             except gen_prog.Unsupported as e:
@@ -417,6 +423,7 @@ def run(ctx):
             if want is not None and got is not None:
                 if want == got:
                     stat["source-order-agrees"] += 1
+                    n_effects_compared[0] += len(want)
                     if len(samples) < 3 and len(want) > 3:
                         samples.append({"program": p["src"].split("def main")[1], "chain": got})
                 else:
@@ -457,7 +464,7 @@ def run(ctx):
         distinct_nontrivial=nontrivial,
         rule="one evaluation = one program compiled by the real compiler and replayed through the Coq model (or one CFG run compared on call traces); non-trivial = at least two regions with a non-empty order-edge chain",
         traces_validated_against_impl=stat["agree"], order_edges=dict(stat),
-        regions_checked=n_regions, regions_with_effects=n_eff_regions, chain_length_histogram={str(k): v for k, v in sorted(chain_lengths.items())},
+        violations_beyond_report_cap=dict(suppressed), source_order_effects_compared=n_effects_compared[0], regions_checked=n_regions, regions_with_effects=n_eff_regions, chain_length_histogram={str(k): v for k, v in sorted(chain_lengths.items())},
         classification={"effect_names": gen["effect_names"], "std_rows": len(gen["rows"]), "ops_validated": len(names),
                         "predicate_shape": gen["predicate"]},
         samples=samples, fixed_programs=n_fixed, notes=ctx.notes, **cov_extra)
